@@ -18,7 +18,7 @@ int32_t u_fprintf(UFILE *f, const char *fmt, ...) {
           if (fmt[i] == '*') { w = va_arg(ap, int); i++; if (fmt[i] == '.') { i++; if (fmt[i] != '*') sink_badfmt = 1; p = va_arg(ap, int); i++; } }
           if (fmt[i] == 'S') { const UChar *s = va_arg(ap, const UChar *); int k = 0; while (s[k] && (p < 0 || k < p)) { put(s[k]); k++; n++; } if (w >= 0 && k < w) sink_badfmt = 1; }
           else if (fmt[i] == 's') { const char *s = va_arg(ap, const char *); int k = 0; while (s[k] && (p < 0 || k < p)) { put((UChar) (unsigned char) s[k]); k++; n++; } if (w >= 0 && k < w) sink_badfmt = 1; }
-          else if (fmt[i] == 'c') { int c = va_arg(ap, int); put((UChar) c); n++; }
+          else if (fmt[i] == 'c') { int c = va_arg(ap, int); put((UChar) (unsigned char) c); n++; }   /* ICU: %c is a char; (cbmc does not promote variadic char arguments) */
           else sink_badfmt = 1;
           i++; }
     }
